@@ -311,7 +311,7 @@ func (k c17) judgeAt(c *rt.Ctx, q string, ps []refstore.Pair, held *c17Held, wan
 		// (2) token start (every position the library reports is the offset of a token of the statement)
 		if pos > 0 {
 			if starts, ok := c17Tokens(q); !ok {
-				rec.NotJudged("token starts undefined for this text (unterminated quote, lone ^ or ~)")
+				rec.NotJudged("token starts undefined for this text (unterminated quote)")
 			} else if !starts[pos] {
 				c.Violation("position-not-a-token-start", cl("mid-token offset"), detail(rt.D{"token_starts": keysOfInt(starts)}))
 				return
